@@ -35,6 +35,7 @@ class FakeProcess:
         self.name = name
         self.state = "new"  # new | alive | terminating | zombie | reaped
         self.pid: Optional[int] = None
+        self.was_terminated = False
         self.serial = len(env.processes)
         env.processes.append(self)
 
@@ -64,10 +65,22 @@ class FakeProcess:
             self.env.monitor.on_scan(self, alive)
         return alive
 
+    @property
+    def exitcode(self) -> Optional[int]:
+        """None while running; afterwards the exit status of the worker: 0 for a worker that exited on its own
+        in configurations with opts['exit0'] (it served its max-tasks quota, it shut down cleanly), -15 after
+        terminate(), 1 otherwise."""
+        if self.state in ("new", "alive", "terminating"):
+            return None
+        if self.was_terminated:
+            return -15
+        return 0 if self.env.opts.get("exit0") else 1
+
     def terminate(self) -> None:
         self.env.trace("terminate", self)
         if self.state == "alive":
             self.state = "terminating"
+            self.was_terminated = True
 
     def join(self, timeout: Any = None) -> None:
         self.env.trace("join", self, timeout)
@@ -174,7 +187,8 @@ class _Main:
 
 
 class Env:
-    def __init__(self, workers: int, max_fails: int, history: List[Dict[str, Any]], monitor: Any) -> None:
+    def __init__(self, workers: int, max_fails: int, history: List[Dict[str, Any]], monitor: Any, opts: Optional[Dict[str, Any]] = None) -> None:
+        self.opts: Dict[str, Any] = dict(opts or {})
         self.nworkers = workers
         self.max_fails = max_fails
         self.history = history
@@ -241,11 +255,13 @@ class Env:
             self.queue.flush()
 
 
-def run_history(workers: int, max_fails: int, history: List[Dict[str, Any]], monitor: Any) -> Env:
-    """Run ProcessManager.start() on a fresh manager against the scripted history."""
+def run_history(workers: int, max_fails: int, history: List[Dict[str, Any]], monitor: Any, opts: Optional[Dict[str, Any]] = None) -> Env:
+    """Run ProcessManager.start() on a fresh manager against the scripted history. opts: further WorkerArgs
+    fields (wait_tasks_timeout, shutdown_timeout, max_tasks_per_child) and 'exit0' (workers that die on
+    their own exit with status 0)."""
     import taskiq.cli.worker.process_manager as pm
 
-    env = Env(workers, max_fails, history, monitor)
+    env = Env(workers, max_fails, history, monitor, opts)
     saved = {k: getattr(pm, k) for k in ("Process", "Event", "Queue", "current_process", "sleep", "os", "signal")}
     pm.Process = lambda **kw: FakeProcess(env, **kw)  # type: ignore[assignment]
     pm.Event = FakeEvent  # type: ignore[assignment]
@@ -262,7 +278,8 @@ def run_history(workers: int, max_fails: int, history: List[Dict[str, Any]], mon
     try:
         from taskiq.cli.worker.args import WorkerArgs
 
-        args = WorkerArgs(broker="b:b", modules=[], workers=workers, max_fails=max_fails)
+        extra = {k: v for k, v in env.opts.items() if k != "exit0"}
+        args = WorkerArgs(broker="b:b", modules=[], workers=workers, max_fails=max_fails, **extra)
         mgr = pm.ProcessManager(args, worker_function=lambda args: None)
         env.manager = mgr
         try:
